@@ -22,6 +22,7 @@ META = {
 }
 META["explanation"] += " " + "(ZB-past) in the number formatter no raw access to the stream's buffer is provably at or beyond Length(), or in front of the number being formatted, on some path (definite verdict with one step of path sensitivity; in-range is not decided there). (OUT-def) a kind arm that assigns the pointer out-parameter whose null-ness is the validity signal assigns it on every path through the arm. (NULL-first) a pointer taken from First()/Last()/Storage() of another container is dereferenced only where a dominating test excludes null (two invariant-based exceptions are listed with their reason)."
 META["explanation"] += " " + '(PROG) the same progress rule as C05 over the template scanner, attribute parsers, expression scanner, finder, string utilities and number formatter/scanner loops; the tag loops driven by finder.GetMatch(), pointer-walking loops over tag arrays and the loop-item growth loop are listed as not decided.'
+META["explanation"] += " " + '(PR-subrange) the code that completes an inline-if record compares every sub-tag span with bounds derived from the true and from the false value and the span of the tag with the 16-bit limit, and drops the record otherwise (taint flow inside the arm). BORROW additionally follows references obtained THROUGH an element pointer (tag_bit->GetInLineIfTag()): they die when a member that destroys stored elements (Drop, Clear, Reset, found from the model) is called on the container; facts carry the literal values of boolean locals of their path, so `dropped, skip = true ... if (!skip) use` is not a use.'
 
 ZONE_KEYS = [
     "Qentem::Finder::Next", "Qentem::TemplateCore::parse", "Qentem::TemplateCore::parseLoopAttributes",
